@@ -823,8 +823,6 @@ func runHistory(t *rapid.T, ops []opSpec, genLabels map[string]bool) *history {
 	h := &history{sc: sc, opt: ops[0].Opt, labels: genLabels, keys: map[string]map[string][]int{}}
 	ob, _ := json.Marshal(ops)
 	h.scHash = string(ob)
-	h.recs, h.opEnd = recordsOfOps(ops)
-	h.promise = promisesOf(ops, h.opEnd)
 	var tr *traced
 	var out *workerOut
 	var err error
@@ -851,6 +849,19 @@ func runHistory(t *rapid.T, ops []opSpec, genLabels map[string]bool) *history {
 		recCrash.Count("worker_rerun_after_trace_inconsistency", 1)
 	}
 	defer os.RemoveAll(base)
+	if out != nil {
+		// boundary-seeking saves: the worker chose the size of their last entry from the offset it saw
+		for i, sz := range out.Sized {
+			if i >= 0 && i < len(ops) && len(ops[i].Ents) > 0 {
+				ops[i].Ents[len(ops[i].Ents)-1].Size = sz
+				ops[i].Fill = nil
+			}
+		}
+		ob, _ = json.Marshal(ops)
+		h.scHash = string(ob)
+	}
+	h.recs, h.opEnd = recordsOfOps(ops)
+	h.promise = promisesOf(ops, h.opEnd)
 	if err != nil {
 		t.Fatalf("saving the history failed: %v\n history: %s", err, ob)
 	}
